@@ -1,7 +1,7 @@
 (* C01 - Structured control flow is lowered to gotos without changing behaviour.
    This file contains only the statements; proofs live in Tr.v / Check.v / C01Proofs.v. *)
 From Coq Require Import List ZArith.
-From Pory Require Import Lexer Ast Parser Emitter Sem2 SemTgt Tr Check C01Proofs ParseWf ProgWf RenderSim RenderCheck C01Final.
+From Pory Require Import Lexer Ast Parser Emitter Sem2 SemTgt Tr Check C01Proofs ParseWf ProgWf RenderSim RenderCheck LabelSim C01Final.
 
 (* PARTIAL (named so): source semantics = chunk-graph semantics, for every abstract game (St, exec, observers),
    every body, every run length, on every chunk graph that the verified relation checker accepts
@@ -79,3 +79,45 @@ Theorem render_sim_checked :
                (run (@gfinal) (gstep St exec flag_set trainer_beaten cmp_var cmp_var_value case_matches G) n (ggoto G 0) s)).
 Proof. exact RenderCheck.render_sim_checked. Qed.
 Print Assumptions render_sim_checked.
+
+(* MAIN THEOREM, final form: no semantic hypothesis is left.  `goto L` in the source resumes at the state fl_body computes
+   (the statement list after the label with the continuation rebuilt as if the label had been reached normally).
+   Premises: the model's own graph and code pass the three executable validators - chk_block (relation checker),
+   wf_render (render check), labels_okb (switches well formed, chunk labels distinct and found in the body) - which the
+   driver runs on every generated script, and the body is well scoped, which holds of every accepted program
+   (accepted_bodies_are_scoped). *)
+Theorem emit_script_correct_validated :
+  forall (St : Type) (exec : cmd -> St -> stepres St) (flag_set trainer_beaten : text -> St -> bool)
+         (cmp_var cmp_var_value : text -> text -> St -> comparison) (case_matches : text -> text -> St -> bool)
+         (mp : option text) (tl : list text) (name : text) (glob optimize : bool) (body : list stmt)
+         (w : wst) (code : list instr) (fuel : nat),
+    emit_graph body = Ok w ->
+    emit_script mp tl name glob optimize body = Ok code ->
+    chk_block (finals w) (brk w) (org w) fuel body 0 (-1) = true ->
+    wf_render mp name (finals w) (order_of optimize (finals w)) code = true ->
+    labels_okb body (finals w) = true ->
+    scoped None None body ->
+    (forall n s, exists m,
+        run sfinal (sstep St exec flag_set trainer_beaten cmp_var cmp_var_value case_matches (fun l => fl_body l body Kstop)) n (enter body Kstop) s =
+        run (@tfinal) (tstep St exec flag_set trainer_beaten cmp_var cmp_var_value case_matches code) m (jump code name) s) /\
+    (forall m s, exists n,
+        res_le (run (@tfinal) (tstep St exec flag_set trainer_beaten cmp_var cmp_var_value case_matches code) m (jump code name) s)
+               (run sfinal (sstep St exec flag_set trainer_beaten cmp_var cmp_var_value case_matches (fun l => fl_body l body Kstop)) n (enter body Kstop) s)).
+Proof. exact C01Final.emit_script_correct_validated. Qed.
+Print Assumptions emit_script_correct_validated.
+
+(* the two label-lookup facts (hypotheses of the _checked form above) *)
+Theorem label_lookup_scoped_holds : forall body, scoped None None body -> label_lookup_scoped (fun l => fl_body l body Kstop).
+Proof. exact LabelSim.label_lookup_scoped_holds. Qed.
+Print Assumptions label_lookup_scoped_holds.
+
+Theorem label_lookup_agrees_holds :
+  forall (St : Type) (exec : cmd -> St -> stepres St) (flag_set trainer_beaten : text -> St -> bool)
+         (cmp_var cmp_var_value : text -> text -> St -> comparison) (case_matches : text -> text -> St -> bool)
+         (G : list chunk) (brkT orgT : tagmap) (body : list stmt),
+    (forall i c, get_chunk G i = Some c -> (0 <= i)%Z) ->
+    tr_block G brkT orgT body 0 (-1) -> swfb body = true -> NoDup (chunk_labels G) ->
+    (forall n, In n (chunk_labels G) -> fl_body n body Kstop <> None) ->
+    label_lookup_agrees St exec flag_set trainer_beaten cmp_var cmp_var_value case_matches G brkT orgT (fun l => fl_body l body Kstop).
+Proof. exact LabelSim.label_lookup_agrees_holds. Qed.
+Print Assumptions label_lookup_agrees_holds.
